@@ -145,6 +145,17 @@ Theorem C17_call_outcome_by_address_class : forall caddr hrp md s a p, reachable
 Proof. exact probe_classes. Qed.
 Print Assumptions C17_call_outcome_by_address_class.
 
+(* the same holds for calls made by contracts: a forwarder using CALL or STATICCALL gets the contract's answer when it
+   is registered and enabled, nothing when no contract is registered, and a failed call (it reverts) when disabled *)
+Theorem C17_nested_call_outcome_by_address_class : forall caddr hrp md v s a p, reachable caddr s -> std_precompile a = false ->
+  match lookup (metas s) a with
+  | None => probe_via hrp md v s a p = POkEmpty
+  | Some m => probe_via hrp md v s a p =
+              if m_disabled m then match v with Direct => PFail | _ => PRevert end else probe_custom hrp m p
+  end.
+Proof. exact probe_via_classes. Qed.
+Print Assumptions C17_nested_call_outcome_by_address_class.
+
 (* the protocol version of a running chain is the latest one *)
 Theorem C17_reachable_version : forall caddr s, reachable caddr s -> p_version (prm s) = LATEST_VERSION.
 Proof. exact reachable_version. Qed.
